@@ -267,8 +267,28 @@ def pass_level_cases(rng, rep, n):
             if fam == "alu":
                 nn = rng.choice([4, 8, 16, 32, 64])
                 t = f"memref<{nn}xi64>"
-                funcs.append(f"""  func.func public @f{j}(%a : {t}, %b : {t}, %c : {t}) {{
-    "dart.operation"(%a, %b, %c) <{{patterns = [{ID}, {ID}, {ID}], accelerator = "snax_alu", operandSegmentSizes = array<i32: 2, 1>}}> ({{
+                # some operands are a fixed row of a matrix or a shifted window of a longer vector (constant parts in the access maps)
+                tys, mps, pts = [], [], []
+                for _o in range(3):
+                    r = rng.random()
+                    if r < 0.2:
+                        row = rng.choice([0, 1, 2, 3])
+                        tys.append(f"memref<4x{nn}xi64>")
+                        mps.append(f"affine_map<(d0) -> ({row}, d0)>")
+                        pts.append({"A": [[0], [1]], "b": [row, 0]})
+                    elif r < 0.35:
+                        o = rng.choice([4, 8, 12])
+                        tys.append(f"memref<{nn + 16}xi64>")
+                        mps.append(f"affine_map<(d0) -> (d0 + {o})>")
+                        pts.append({"A": [[1]], "b": [o]})
+                    else:
+                        tys.append(t)
+                        mps.append(ID)
+                        pts.append({"A": [[1]], "b": [0]})
+                if all(x != t for x in tys):
+                    tys[2], mps[2], pts[2] = t, ID, {"A": [[1]], "b": [0]}
+                funcs.append(f"""  func.func public @f{j}(%a : {tys[0]}, %b : {tys[1]}, %c : {tys[2]}) {{
+    "dart.operation"(%a, %b, %c) <{{patterns = [{mps[0]}, {mps[1]}, {mps[2]}], accelerator = "snax_alu", operandSegmentSizes = array<i32: 2, 1>}}> ({{
     ^bb0(%0 : !dart.stream<i64>, %1 : !dart.stream<i64>, %2 : !dart.stream<i64>):
       %3 = "dart.generic"(%0, %1) <{{library_call = "snax_alu"}}> ({{
       ^bb1(%x : i64, %y : i64, %z : i64):
@@ -276,10 +296,10 @@ def pass_level_cases(rng, rep, n):
         dart.yield %4 : i64
       }}) : (!dart.stream<i64>, !dart.stream<i64>) -> !dart.stream<i64>
       dart.yield %3 : !dart.stream<i64>
-    }}) : ({t}, {t}, {t}) -> ()
+    }}) : ({tys[0]}, {tys[1]}, {tys[2]}) -> ()
     func.return
   }}""")
-                metas.append({"bounds": [nn], "pats": [{"A": [[1]], "b": [0]}] * 3})
+                metas.append({"bounds": [nn], "pats": pts})
             else:
                 M, N, K = rng.choice([(8, 8, 8), (16, 8, 8), (8, 16, 8), (8, 8, 16), (16, 8, 16), (8, 24, 8)])
                 ts = [f"memref<{M}x{K}xi8>", f"memref<{K}x{N}xi8, strided<[1, {K}]>>", f"memref<{M}x{N}xi32>"]
